@@ -1,6 +1,7 @@
 package main
 
 import (
+	"encoding/binary"
 	"encoding/json"
 	"fmt"
 	"math/rand"
@@ -312,6 +313,30 @@ func (b *c14base) cases(tier string, seed int64) []dmgCase {
 				}
 				add(dmgCase{Seg: si, Kind: "overwrite", Pos: pos, Len: ln, Fill: fill, Mode: modes[(pos+ln)%3],
 					What: fmt.Sprintf("overwrite %d bytes at %d of segment %d with %x", ln, pos, si, fill)})
+			}
+		}
+		// field-aware overwrites (after seeded change S129): both length fields of a V2 record (bytes 20..27) replaced by
+		// values that are plausible one by one and extreme together - sums that overflow int32, that hit the 64 MiB
+		// guard exactly, negative values, the two lengths exchanged
+		lenPairs := [][2]uint32{{0x40000000, 0x40000000}, {0x7FFFFFFF, 0x41}, {0x7FFFFFFF, 0x7FFFFFFF}, {0x7FFFFFFF, 1}, {1, 0x7FFFFFFF},
+			{0x80000000, 0x10}, {0xFFFFFFFF, 1}, {0, 0x7FFFFFFF}, {1 << 26, 1 << 26}, {1 << 25, 1 << 25}, {0x60000000, 0x60000000}, {0x7FFFFFF0, 0x7FFFFFF0}}
+		for ri, rc := range b.segs[si].Log.Recs {
+			if !thorough && ri%2 != int(seed%2) && rc.Pos != full.Pos && rc.Pos != short.Pos {
+				continue
+			}
+			at := int(rc.Pos) + 20
+			if at+8 > n {
+				continue
+			}
+			pairs := append([][2]uint32{}, lenPairs...)
+			kl, vl := binary.BigEndian.Uint32(f[at:]), binary.BigEndian.Uint32(f[at+4:])
+			pairs = append(pairs, [2]uint32{vl, kl}, [2]uint32{kl + 1, vl - 1}, [2]uint32{kl + 0x80000000, vl + 0x80000000})
+			for pi, p := range pairs {
+				fill := make([]byte, 8)
+				binary.BigEndian.PutUint32(fill, p[0])
+				binary.BigEndian.PutUint32(fill[4:], p[1])
+				add(dmgCase{Seg: si, Kind: "overwrite", Pos: at, Len: 8, Fill: fill, Mode: modes[(ri+pi)%3],
+					What: fmt.Sprintf("overwrite both length fields of the record at %d of segment %d with %x", rc.Pos, si, fill)})
 			}
 		}
 		for cut := 0; cut < n; cut++ {
